@@ -21,8 +21,8 @@ import (
 
 type rpcCall struct {
 	Method  string
-	PForm   int // params form
-	PN      int // number inside the params form
+	PForm   int    // params form
+	PN      int    // number inside the params form
 	ID      string // raw JSON of the id, "" = no id member
 	IDFirst bool   // id member right after "jsonrpc" (else last)
 }
@@ -233,6 +233,13 @@ var (
 	blockPool  = []int64{0, 1, 2, 100, 101, 255, 256, 257, 1000, 65536, 1 << 32, 1<<32 + 100, 1<<32 + 256, 1 << 40}
 	hashPool   = [][]byte{nil, nil, {1, 2, 3}, {1, 2, 4}, {1, 2}, {1, 2, 3, 0}, bytes.Repeat([]byte{0xab}, 32), append(bytes.Repeat([]byte{0xab}, 31), 0xac), {0}}
 	sharedPool = []string{"", "", "u1", "u2"}
+	// bodies that differ only in their "id" member (the JSON-RPC formatter would make them equal)
+	rawIDSibling = map[string]string{
+		rawPool[0]: rawPool[1], rawPool[1]: rawPool[0],
+		rawPool[7]: rawPool[8], rawPool[8]: rawPool[7],
+	}
+	dataVariations = map[string]bool{"method": true, "params": true, "params_value_or_nested_id": true, "batch_extra_call": true, "batch_order": true,
+		"batch_vs_single": true, "raw_data": true, "non_jsonrpc_body_id": true, "rest_body_id": true}
 )
 
 // rapid's integer generators are log-uniform (strongly biased towards small values), which is
@@ -476,6 +483,10 @@ func specVariations(s reqSpec) []varFn {
 	}
 	if s.Kind == "raw" {
 		add("raw_data", true, false, func(t *rapid.T, s *reqSpec) { s.Raw = pickOther(t, rawPool, s.Raw, "newraw") })
+		if sib, ok := rawIDSibling[s.Raw]; ok {
+			// a body of a non JSON-RPC interface whose "id" member changes: a different request
+			add("non_jsonrpc_body_id", true, false, func(t *rapid.T, s *reqSpec) { s.Raw = sib })
+		}
 	}
 	add("api_url", true, false, func(t *rapid.T, s *reqSpec) { s.URL = pickOther(t, urlPool, s.URL, "newurl") })
 	add("connection_type", true, false, func(t *rapid.T, s *reqSpec) { s.Conn = pickOther(t, connPool, s.Conn, "newconn") })
@@ -529,6 +540,22 @@ func varySpec(t *rapid.T, base reqSpec, family int) (reqSpec, variation) {
 			}
 		default:
 			pool = append(pool, v)
+		}
+	}
+	if family == 2 {
+		// half of the key-relevant variations touch the body (method, params, nested ids, batch shape, raw body)
+		var body, envelope []varFn
+		for _, v := range pool {
+			if dataVariations[v.v.Name] {
+				body = append(body, v)
+			} else {
+				envelope = append(envelope, v)
+			}
+		}
+		if len(body) > 0 && uni(t, 2, "bodyvar") == 0 {
+			pool = body
+		} else {
+			pool = envelope
 		}
 	}
 	v := pool[uni(t, len(pool), "variation")]
